@@ -6,6 +6,7 @@ import (
 	"encoding/json"
 	"fmt"
 	"os"
+	"path/filepath"
 )
 
 func usage() {
@@ -37,6 +38,9 @@ func main() {
 	case "replay":
 		if len(os.Args) != 3 {
 			usage()
+		}
+		if abs, err := filepath.Abs(os.Args[2]); err == nil {
+			os.Args[2] = abs
 		}
 		b, err := os.ReadFile(os.Args[2])
 		if err != nil {
